@@ -20,8 +20,8 @@ def check(chk):
     r52(chk, m)
     r53(chk, m)
     r54(chk, m)
-    r55(chk, m)
-    r56(chk, m)
+    from . import shared
+    shared.number_rules(chk, m, 'R5.5')
     r57(chk, m)
     from . import shared
     shared.cache_rules(chk, m, 'R5.8')
@@ -70,16 +70,51 @@ def balanced_functions(m):
     return out
 
 
+def _all_functions(mod):
+    fns = list(mod.functions.values())
+    for c in mod.classes.values():
+        stack = [c]
+        while stack:
+            k = stack.pop()
+            fns.extend(k.methods.values())
+            for p in k.properties.values():
+                fns.extend(x for x in p.values() if x not in fns)
+            stack.extend(k.nested.values())
+    return fns
+
+
 def r51(chk, m, rule_id='R5.1'):
     R = chk.rule(rule_id, 'ParameterCommand.disable()/enable() are balanced on every normal exit of every function '
-                 'that calls either (net 0, never positive)', 20)
-    fns = balanced_functions(m)
-    need(len(fns) >= 6, 'fewer than 6 functions call ParameterCommand.enable/disable: anchors moved')
+                 'that calls either, private helpers being interpreted inside their callers (net 0, never positive)', 12)
+    fns = [f for f in balanced_functions(m) if not (f.cls is not None and f.cls.name == 'ParameterCommand')]
+    need(len(fns) >= 3, 'fewer than 3 functions call ParameterCommand.enable/disable: anchors moved')
+    # private helpers that share the bracket with their callers are interpreted inside them
+    from .c04 import resolved_calls
+    allf = [f for mod in m.modules.values() if 'simpletal' not in mod.name for f in _all_functions(mod)]
+    callers = {}
+    for f in allf:
+        for c, cal in resolved_calls(m, f):
+            callers.setdefault(cal.fullname, set()).add(f.fullname)
+    byname = {f.fullname: f for f in allf}
+    helpers = set()
+    work = {f.fullname for f in fns}
+    changed = True
+    while changed:
+        changed = False
+        for name in sorted(work - helpers):
+            f = byname.get(name)
+            if f is not None and f.name.startswith('_') and not f.name.startswith('__') and callers.get(name):
+                helpers.add(name)
+                new = callers[name] - work
+                work |= callers[name]
+                changed = True
+    fns = [byname[n] for n in sorted(work - helpers) if n in byname and not (byname[n].cls is not None and byname[n].cls.name == 'ParameterCommand')]
     for fn in sorted(fns, key=lambda f: f.fullname):
-        if fn.cls is not None and fn.cls.name == 'ParameterCommand':
-            continue
         chk.analysed(fn)
-        it = A.Interp(model=m, scope=fn, hooks=BalHooks(), max_iter=1, exc_edges=True)
+        hk = BalHooks()
+        hk.cls = fn.cls
+        hk.should_inline = lambda fname, node, info: info is not None and info.fullname in helpers
+        it = A.Interp(model=m, scope=fn, hooks=hk, max_iter=1, exc_edges=True, inline=3 if helpers else 0)
         outs = it.run_function(fn)
         chk.paths += len(outs)
         exits = {}
@@ -132,35 +167,77 @@ def r52(chk, m):
     Macro = m.cls('plasTeX', 'Macro')
     argfn = m.func('plasTeX', 'Macro.arguments')
     chk.analysed(argfn)
-    # the tokenising regular expression, literally from the source
-    split = [c for c in M.calls_in(argfn.node) if M.call_name(c) == 're.split']
-    need(len(split) == 1 and isinstance(split[0].args[0], ast.Constant), 'Macro.arguments: re.split(<literal>) not found')
-    rx = re.compile(split[0].args[0].value)
+    # the tokenising regular expression of the repository itself (a literal, or a module constant compiled from one)
+    fns = [argfn] + reachable_private(m, argfn)
+    rx = None
+    for f in fns:
+        for c in M.calls_in(f.node):
+            nm = M.call_name(c)
+            pat = None
+            if nm == 're.split' and c.args:
+                pat = m.eval_const(f, c.args[0])
+            elif nm.endswith('.split') and isinstance(c.func.value, ast.Name):
+                r = m.resolve_name(f, c.func.value.id)
+                if isinstance(r, tuple) and r[0] == 'assign' and isinstance(r[2][-1], ast.Call) and M.call_name(r[2][-1]) == 're.compile' and r[2][-1].args:
+                    pat = m.eval_const(r[1], r[2][-1].args[0])
+            if isinstance(pat, str) and '\\w' in pat:
+                need(rx is None or rx.pattern == pat, 'Macro.arguments: more than one tokenising regular expression')
+                rx = re.compile(pat)
+    need(rx is not None, 'Macro.arguments: the regular expression that splits the signature was not found')
     groupings = None
-    for n in M.walk_no_nested(argfn.node):
-        if isinstance(n, ast.Assign) and text(n.targets[0]) == 'groupings':
-            groupings = m.eval_const(argfn, n.value)
+    cands = []
+    for f in fns:
+        for n in M.walk_no_nested(f.node):
+            if isinstance(n, ast.Dict):
+                cands.append(m.eval_const(f, n))
+            elif isinstance(n, ast.Name) and isinstance(n.ctx, ast.Load):
+                r = m.resolve_name(f, n.id)
+                if isinstance(r, tuple) and r[0] == 'assign' and isinstance(r[2][-1], ast.Dict):
+                    cands.append(m.eval_const(r[1], r[2][-1]))
+    for v in cands:
+        if isinstance(v, dict) and v and all(isinstance(k, str) and len(k) == 1 and k in '[(<{' for k in v):
+            groupings = v
     need(isinstance(groupings, dict), 'Macro.arguments: groupings table not found')
     for k, v in sorted(groupings.items()):
         chk.verdict(R, 'groupings[%r]' % k, isinstance(v, str) and len(v) == 2 and v[0] == k and v[1] in ')]>}',
                     'grouping %r maps to %r (must be the opener followed by its closer)' % (k, v), chk.where(argfn))
-    # known types
-    init = m.func('plasTeX.TeX', 'TeX.__init__')
+    # known types: the argtypes table
     known = set()
-    for n in M.walk_no_nested(init.node):
-        if isinstance(n, ast.Assign) and text(n.targets[0]) == 'self.argtypes' and isinstance(n.value, ast.Dict):
-            for k in n.value.keys:
-                if isinstance(k, ast.Constant) and isinstance(k.value, str):
-                    known.add(k.value)
+    TeXc = m.cls('plasTeX.TeX', 'TeX')
+    for f in list(TeXc.methods.values()):
+        for n in M.walk_no_nested(f.node):
+            if isinstance(n, ast.Assign) and text(n.targets[0]).endswith('argtypes') and isinstance(n.value, ast.Dict):
+                for k in n.value.keys:
+                    if isinstance(k, ast.Constant) and isinstance(k.value, str):
+                        known.add(k.value)
     need(len(known) >= 15, 'TeX.argtypes literal not found')
     ras = m.func('plasTeX.TeX', 'TeX.readArgumentAndSource')
-    special = set()
-    for n in M.walk_no_nested(ras.node):
-        if isinstance(n, ast.Compare) and text(n.left) == 'type' and isinstance(n.ops[0], ast.In):
-            v = m.eval_const(ras, n.comparators[0])
-            if isinstance(v, (list, tuple)):
-                special.update(x for x in v if isinstance(x, str))
-    need(len(special) >= 10, 'special-cased types of readArgumentAndSource not found')
+    special_cache = {}
+
+    def special(tname):
+        """A type outside argtypes is handled iff readArgumentAndSource(type=tname) never reaches the generic cast()."""
+        if tname not in special_cache:
+            h = SelfHooks(m, TeXc)
+            h.keep = lambda ev: (ev[0] == 'call' and ev[1] == 'self.cast') or ev[0] == 'return'
+            h.should_inline = A.private_only
+            it = A.Interp(model=m, scope=ras, hooks=h, max_iter=1, exc_edges=False, inline=2, max_states=20000)
+            env = {a.arg: A.TOP for a in ras.node.args.args[1:] + ras.node.args.kwonlyargs}
+            env.update({'type': tname, 'spec': None, 'stripLeadingWhitespace': False, 'charsubs': [], 'expanded': False})
+            try:
+                outs = it.run_function(ras, env=env)
+                special_cache[tname] = {e[2] for kind, s2, v in outs if kind == 'return' and not any(x[0] == 'call' for x in s2.trace)
+                                        for e in s2.trace[-1:] if e[0] == 'return'}
+            except AnalysisError:
+                special_cache[tname] = None
+        if tname == 'NoSuchType' or special_cache[tname] is None or special_cache.get('NoSuchType') is None:
+            return special_cache[tname]
+        if 'NoSuchType' not in special_cache:
+            special('NoSuchType')
+        # exits that only this type name reaches (before the generic conversion)
+        return bool(special_cache[tname] - special_cache['NoSuchType'])
+    need(special('NoSuchType') is not None and special('Dimen') is True and special('Args') is True and special('NoSuchTypeEither') is False,
+         'readArgumentAndSource: special-cased argument types are not recognised (Dimen %s, Args %s, unknown %s)'
+         % (special('Dimen'), special('Args'), special('NoSuchTypeEither')))
     # 'self' is handled like an ordinary argument name; all signatures
     n_typed = 0
     for c in macro_classes(m):
@@ -179,13 +256,36 @@ def r52(chk, m):
             continue
         if not types:
             continue
-        bad = sorted({t for t in types if t not in known and t not in special})
+        bad = sorted({t for t in types if t not in known and special(t) is not True})
         n_typed += len(types)
         chk.verdict(R, 'args of %s' % c.fullname, not bad,
                     'signature %r names unknown argument type(s) %s: cast() would silently return raw tokens' % (v, bad),
                     chk.where(c), '%r: types %s' % (v, sorted(set(types))))
-    chk.note('typed arguments checked: %d; known types: %d argtypes + %d special-cased' % (n_typed, len(known), len(special)))
+    chk.note('typed arguments checked: %d; known types: %d argtypes + special-cased %s' % (n_typed, len(known), sorted(k for k in special_cache if k != 'NoSuchType' and special(k) is True)))
     chk.call_sites += n_typed
+
+
+def reachable_private(m, fn, depth=3):
+    """Private helpers (module functions / methods of the class) reachable from fn through resolved calls."""
+    out, seen, todo = [], {fn.fullname}, [(fn, 0)]
+    while todo:
+        f, d = todo.pop()
+        if d >= depth:
+            continue
+        for c in M.calls_in(f.node):
+            callee = None
+            fx = c.func
+            if isinstance(fx, ast.Attribute) and isinstance(fx.value, ast.Name) and fx.value.id in ('self', 'cls', 'tself') and f.cls is not None:
+                callee = m.find_method(f.cls, fx.attr)
+            elif isinstance(fx, ast.Name):
+                r = m.resolve_name(f, fx.id)
+                if isinstance(r, M.FunctionInfo):
+                    callee = r
+            if callee is not None and callee.fullname not in seen and callee.name.startswith('_') and not callee.name.startswith('__'):
+                seen.add(callee.fullname)
+                out.append(callee)
+                todo.append((callee, d + 1))
+    return out
 
 
 def parse_args(rx, args):
@@ -227,85 +327,104 @@ FIL = {'fil': 2e9, 'fill': 4e9, 'filll': 6e9}
 
 
 def r53(chk, m):
-    R = chk.rule('R5.3', 'every unit has a conversion arm in dimen.__new__ whose factor equals the divisor of the '
-                 'inverse property and TeX\'s constant; fil orders are the 2e9/4e9/6e9 bands', 9 + 3 + 2)
+    R = chk.rule('R5.3', 'dimen("<n><unit>") (abstract interpretation on concrete strings): every unit of dimen.units/mudimen.units '
+                 'is converted with TeX\'s constant, the inverse property gives the number back, fil orders are the +-2e9/4e9/6e9 '
+                 'bands and are decoded by the same bands, glue components after the dimension are ignored', 9 + 3 + 2)
     dimen = m.cls('plasTeX', 'dimen')
+    mudimen = m.cls('plasTeX', 'mudimen')
     new = m.find_method(dimen, '__new__')
     chk.analysed(new)
     units = m.class_const(dimen, 'units')
-    need(isinstance(units, list) and len(units) >= 9, 'dimen.units not a foldable list')
-    arms = {}
-    fil_arms = {}
-    for n in ast.walk(new.node):
-        if isinstance(n, ast.If) and isinstance(n.test, ast.Compare) and text(n.test.left) == 'units' \
-           and isinstance(n.test.ops[0], ast.Eq) and isinstance(n.test.comparators[0], ast.Constant):
-            u = n.test.comparators[0].value
-            factor = None
-            for st in n.body:
-                if isinstance(st, ast.AugAssign) and isinstance(st.op, ast.Mult) and text(st.target) == 'v':
-                    factor = m.eval_const(new, st.value)
-                elif isinstance(st, ast.Pass):
-                    factor = 1.0
-                elif isinstance(st, ast.If):
-                    adds = [m.eval_const(new, x.value) for x in ast.walk(st) if isinstance(x, ast.AugAssign)]
-                    ops = [type(x.op).__name__ for x in ast.walk(st) if isinstance(x, ast.AugAssign)]
-                    fil_arms[u] = (text(st.test), adds, ops)
-            arms[u] = factor
-    for u in units:
-        if u in ('ex', 'em'):
-            continue      # font dependent, "just estimates" - not TeX constants
-        want = TEX_UNITS.get(u)
-        got = arms.get(u)
-        inv = inverse_divisor(m, dimen, u)
-        ok = want is not None and isinstance(got, (int, float)) and abs(got - want) <= 1e-9 * want \
-            and isinstance(inv, (int, float)) and abs(inv - want) <= 1e-9 * want
-        chk.verdict(R, 'unit %s' % u, ok,
-                    'unit %s: dimen.__new__ multiplies by %r, inverse property divides by %r, TeX: %r scaled points'
-                    % (u, got, inv, want), chk.where(new), 'factor %r' % (got,))
-    for u in ('ex', 'em'):
-        got = arms.get(u)
-        inv = inverse_divisor(m, dimen, u)
-        chk.verdict(R, 'unit %s (writer/reader agreement only)' % u,
-                    isinstance(got, (int, float)) and got == inv and u in units,
-                    'unit %s: factor %r in __new__ but divisor %r in the inverse property' % (u, got, inv), chk.where(new))
+    muunits = m.class_const(mudimen, 'units')
+    need(isinstance(units, list) and len(units) >= 9 and isinstance(muunits, list), 'dimen.units / mudimen.units are not foldable lists')
+
+    class H(SelfHooks):
+        def call(self, interp, node, fname, args, kwargs, state):
+            if fname == 'isinstance' and len(args) == 2:
+                t = text(node.args[1])
+                if t == 'str':
+                    return isinstance(args[0], str)
+                if t in ('Macro', 'plasTeX.Macro'):
+                    return False
+            if fname in ('float.__new__', 'super().__new__', 'super(dimen, cls).__new__') and args:
+                return args[-1]
+            return None
+
+        def keep(self, ev):
+            return False
+
+    def convert(textval):
+        h = H(m, dimen)
+        h.should_inline = A.private_only
+        it = A.Interp(model=m, scope=new, hooks=h, max_iter=14, exc_edges=False, inline=2)
+        outs = it.run_function(new, env={'cls': dimen, 'v': textval})
+        chk.paths += len(outs)
+        return {(kind, round(v, 3) if isinstance(v, float) else (v if isinstance(v, int) else repr(v))) for kind, s2, v in outs}
+
+    def inverse(u, value):
+        name = {'in': '_in'}.get(u, u)
+        f = dimen.properties.get(name, {}).get('get') if name in dimen.properties else None
+        if f is None:
+            return None
+        hk = H(m, dimen)
+        hk.should_inline = A.private_only
+        it = A.Interp(model=m, scope=f, hooks=hk, max_iter=4, exc_edges=False, inline=2)
+        outs = it.run_function(f, env={'self': value})
+        vals = {round(v, 6) if isinstance(v, float) else v for kind, s2, v in outs if kind == 'return'}
+        return vals.pop() if len(vals) == 1 else None
+    for u in units + [x for x in muunits if x not in units]:
+        got = convert('2' + u)
+        if u in TEX_UNITS:
+            want = {('return', round(2 * TEX_UNITS[u], 3))}
+            chk.decide(R, 'unit %s' % u, got, want, 'dimen("2%s") gives %s, TeX: %s scaled points' % (u, sorted(got, key=repr), 2 * TEX_UNITS[u]), chk.where(new))
+        elif u == 'mu':
+            chk.decide(R, 'unit mu', got, {('return', 2.0)}, 'dimen("2mu") gives %s, expected 2.0 (math units are kept as written)' % sorted(got, key=repr), chk.where(new))
+        else:
+            vals = [v for k, v in got if k == 'return' and isinstance(v, (int, float))]
+            back = inverse(u, vals[0]) if len(got) == 1 and vals else None
+            if back is None:
+                chk.undecided(R, 'unit %s (writer/reader agreement only)' % u, 'dimen("2%s") gives %s; the %s property of that is not determined' % (u, sorted(got, key=repr), u), chk.where(new))
+            else:
+                chk.verdict(R, 'unit %s (writer/reader agreement only)' % u, back == 2.0,
+                            'dimen("2%s") gives %s and the %s property turns that into %r (expected 2.0)' % (u, sorted(got, key=repr), u, back), chk.where(new))
+        if u in TEX_UNITS and u != 'sp':
+            back = inverse(u, 2 * TEX_UNITS[u])
+            if back is None:
+                chk.undecided(R, 'unit %s inverse property' % u, 'the %s property of 2%s in scaled points is not determined' % (u, u), chk.where(dimen))
+            else:
+                chk.verdict(R, 'unit %s inverse property' % u, abs(back - 2.0) < 1e-6,
+                            'the %s property of 2%s in scaled points gives %r (expected 2.0)' % (u, u, back), chk.where(dimen))
     for u, band in FIL.items():
-        t, adds, ops = fil_arms.get(u, ('', [], []))
-        ok = sorted(ops) == ['Add', 'Sub'] and all(a == band for a in adds) and t.replace(' ', '') == 'v<0'
-        chk.verdict(R, 'fil order %s' % u, ok,
-                    '%s must be encoded by +-%g (found test %r, %s %s)' % (u, band, t, ops, adds), chk.where(new))
-    # decoding bands in source / fill
-    for prop in ('source', 'fill'):
-        f = m.find_method(dimen, prop)
+        for sign in (1, -1):
+            got = convert('%d%s' % (2 * sign, u))
+            chk.decide(R, 'fil order %s (%s)' % (u, 'positive' if sign > 0 else 'negative'), got, {('return', round(sign * (2 + band), 3))},
+                       'dimen("%d%s") gives %s, expected %r (the order is encoded by the +-%g band)' % (2 * sign, u, sorted(got, key=repr), sign * (2 + band), band), chk.where(new))
+    got = convert('1pt plus 2pt minus 3pt')
+    chk.decide(R, 'glue components are ignored', got, {('return', 65536.0)},
+               'dimen("1pt plus 2pt minus 3pt") gives %s, expected 65536.0' % sorted(got, key=repr), chk.where(new))
+    # decoding bands in fill / source
+    for prop in ('fill', 'source'):
+        f = dimen.properties.get(prop, {}).get('get') if prop in dimen.properties else m.find_method(dimen, prop)
+        need(f is not None, 'dimen.%s not found' % prop)
         chk.analysed(f)
-        bands = []
-        for n in ast.walk(f.node):
-            if isinstance(n, ast.If) and isinstance(n.test, ast.Compare) and 'abs(self)' in text(n.test.left):
-                thr = m.eval_const(f, n.test.comparators[0])
-                sub = [m.eval_const(f, x.right) for x in ast.walk(n.body[0]) if isinstance(x, ast.BinOp) and isinstance(x.op, ast.Sub) and 'abs(self)' in text(x.left)]
-                suffix = [x.value for x in ast.walk(n.body[0]) if isinstance(x, ast.Constant) and isinstance(x.value, str)]
-                bands.append((type(n.test.ops[0]).__name__, thr, sub, suffix))
-        want_thr = [6e9, 4e9, 2e9]
-        ok = [b[1] for b in bands] == want_thr and all(b[0] == 'GtE' and b[2] == [b[1]] for b in bands)
-        if prop == 'source':
-            ok = ok and [b[3] for b in bands] == [['filll'], ['fill'], ['fil']]
+        res = {}
+        for u, band in FIL.items():
+            for sign in (1, -1):
+                hk = H(m, dimen)
+                hk.should_inline = A.private_only
+                it = A.Interp(model=m, scope=f, hooks=hk, max_iter=4, exc_edges=False, inline=2)
+                outs = it.run_function(f, env={'self': sign * (2 + band)})
+                res[(u, sign)] = {v if not isinstance(v, float) else round(v, 6) for kind, s2, v in outs if kind == 'return'}
+        if prop == 'fill':
+            ok = all(res[(u, sg)] == {2.0 * sg} for u in FIL for sg in (1, -1))
+        else:
+            ok = all(res[(u, sg)] == {'%s%s' % (2.0 * sg, u)} for u in FIL for sg in (1, -1))
+        if not ok and any(not v or any(x is A.TOP or isinstance(x, A.Sym) for x in v) for v in res.values()):
+            chk.undecided(R, 'dimen.%s decodes the fil bands' % prop, 'dimen.%s of +-(2 + band) is not determined: %s' % (prop, {k: sorted(map(repr, v)) for k, v in res.items()}), chk.where(f))
+            continue
         chk.verdict(R, 'dimen.%s decodes the fil bands' % prop, ok,
-                    'dimen.%s must test >= 6e9, 4e9, 2e9 in this order and subtract the same constant: %r' % (prop, bands), chk.where(f))
-
-
-def inverse_divisor(m, dimen, unit):
-    name = {'in': '_in'}.get(unit, unit)
-    f = None
-    if name in dimen.properties:
-        f = dimen.properties[name].get('get')
-    if f is None:
-        return None
-    for n in ast.walk(f.node):
-        if isinstance(n, ast.Return):
-            if isinstance(n.value, ast.BinOp) and isinstance(n.value.op, ast.Div) and text(n.value.left) == 'self':
-                return m.eval_const(f, n.value.right)
-            if text(n.value) == 'self':
-                return 1.0
-    return None
+                    'dimen.%s of +-(2 + band) gives %s; expected the amount 2 %s' % (prop, {k: sorted(map(repr, v)) for k, v in res.items()},
+                                                                                 'back' if prop == 'fill' else 'followed by the unit name'), chk.where(f))
 
 
 # ---------------------------------------------------------------------------
@@ -463,7 +582,6 @@ def r54(chk, m):
     expect('readSequence', 'expanded element', [digit_in(), elem()], 'pushed', env={'chars': A.Sym('chars'), 'optspace': True})
     expect('readCharacter', 'the expected character', [tok('C', '*')], 'consumed', env={'char': '*'})
     expect('readCharacter', 'another character', [other()], 'pushed', env={'char': '*'})
-    expect('readGrouping', 'a token that does not open the group', [other()], 'pushed', env={'chars': '[]'})
 
     # readKeyword: every partially matched character goes back
     fn = m.func('plasTeX.TeX', 'TeX.readKeyword')
@@ -601,41 +719,54 @@ def r56(chk, m, rule_id='R5.6'):
 # ---------------------------------------------------------------------------
 def r57(chk, m):
     R = chk.rule('R5.7', 'category codes changed for an argument type (url: # ~ % & become ordinary) are restored on every '
-                 'normal exit of readArgumentAndSource, including the one for an absent optional argument', 2)
-    from .. import flow
+                 'normal exit of readArgumentAndSource, including the one for an absent optional argument (abstract '
+                 'interpretation with a two-entry catcode table)', 2)
     fn = m.func('plasTeX.TeX', 'TeX.readArgumentAndSource')
     chk.analysed(fn)
-    saved = set()
-    for n in M.walk_no_nested(fn.node):
-        if isinstance(n, ast.Assign) and isinstance(n.targets[0], ast.Subscript) and isinstance(n.targets[0].value, ast.Name) \
-           and 'whichCode' in text(n.value):
-            saved.add(n.targets[0].value.id)
-    need(len(saved) == 1, 'readArgumentAndSource: the table of saved category codes was not found')
-    sv = saved.pop()
-    restoring = set()
-    for n in M.walk_no_nested(fn.node):
-        if isinstance(n, ast.For) and re.search(r'\b%s\b' % sv, text(n.iter)):
-            for c in ast.walk(n):
-                if isinstance(c, ast.Call) and M.call_name(c).endswith('context.catcode'):
-                    restoring.add(id(c))
-    need(restoring, 'readArgumentAndSource: no loop restores the saved category codes')
-    rets = {}
+    TeXc = m.cls('plasTeX.TeX', 'TeX')
+    OLD = {'#': 6, '~': 13}
 
-    def transfer(n, v):
-        if isinstance(n, ast.Call) and M.call_name(n).endswith('context.catcode') and id(n) not in restoring:
-            return 'dirty'
-        if isinstance(n, ast.Call) and isinstance(n.func, ast.Attribute) and n.func.attr in ('items', 'keys') \
-           and text(n.func.value) == sv and v == 'dirty':
-            return 'restored'
-        if isinstance(n, ast.Return):
-            rets.setdefault(n.lineno, set()).add(v)
-        return v
-    normal, raised = flow.function_exits(fn.node, 'clean', transfer)
-    bad = sorted(l for l, vs in rets.items() if 'dirty' in vs)
-    for l in sorted(rets):
-        if 'dirty' in rets[l] or 'restored' in rets[l]:
-            chk.verdict(R, 'readArgumentAndSource :: %s' % exit_key(fn, l), 'dirty' not in rets[l],
-                        'this exit can be reached with the category codes of the argument type still in force (the restore loop is not '
-                        'on its path): the rest of the document is read with # ~ %% & as ordinary characters', chk.where(fn, type('L', (), {'lineno': l})()))
-    chk.verdict(R, 'readArgumentAndSource :: falls off with codes restored', 'dirty' not in normal,
-                'a normal exit leaves argument-type category codes in force', chk.where(fn))
+    class H(SelfHooks):
+        def __init__(self, model, cls, present):
+            SelfHooks.__init__(self, model, cls)
+            self.present = present
+
+        def call(self, interp, node, fname, args, kwargs, state):
+            if fname.endswith('context.whichCode') and len(args) == 1:
+                return OLD.get(args[0], A.TOP)
+            if fname.endswith('context.catcode') and len(args) == 2:
+                state.env['__codes'] = state.env.get('__codes', ()) + ((args[0], args[1]),)
+                return A.NONE
+            if fname in ('self.readToken', 'self.readGrouping', 'self.readCharacter'):
+                return ([A.Sym('tok')], 'src') if self.present else (None, '')
+            if fname == 'self.cast':
+                return A.Sym('value')
+            if fname == 'isinstance' and len(args) == 2 and isinstance(args[0], tuple):
+                return True
+            return None
+
+        def keep(self, ev):
+            return False
+    for label, present, spec in (('argument present', True, None), ('optional argument absent', False, '[]'), ('optional argument present', True, '[]')):
+        h = H(m, TeXc, present)
+        h.should_inline = A.private_only
+        it = A.Interp(model=m, scope=fn, hooks=h, max_iter=3, exc_edges=False, inline=2)
+        env = {a.arg: None for a in fn.node.args.args[1:] + fn.node.args.kwonlyargs}
+        env.update({'type': 'url', 'spec': spec, 'delim': ',', 'expanded': False, 'stripLeadingWhitespace': False, 'charsubs': [],
+                    'default': A.Sym('default'), 'self.argtypes': {'url': ('cast-url', {'#': 12, '~': 12})}})
+        outs = it.run_function(fn, env=env)
+        chk.paths += len(outs)
+        got = set()
+        for kind, s2, v in outs:
+            if kind != 'return':
+                continue
+            final = dict(OLD)
+            seen = False
+            for k, val in s2.env.get('__codes', ()):
+                final[k] = val
+                seen = True
+            got.add('codes never changed' if not seen else ('restored' if final == OLD else 'left as %s' % sorted(final.items())))
+        chk.decide(R, 'readArgumentAndSource :: %s' % label, got, {'restored'},
+                   'reading an argument of a type with its own category codes (%s): on return the codes are %s; expected the codes '
+                   'in force before the argument - otherwise the rest of the document is read with # ~ %% & as ordinary characters'
+                   % (label, sorted(got)), chk.where(fn))
